@@ -15,7 +15,8 @@ EXTRACTORS = ["earth_consts"]
 TECHNIQUE = ("Lean 4 theorems over the real-number reading of a twin model with regenerated constant tables + "
              "Float-twin differential run + quadrature oracle")
 RULE = ("density: both Earth models x radii {0, every shell boundary and its two float neighbours, R, beyond R, "
-        "negative, random}, scalar and array calls; slant depth: endpoints at depth 0..3 km with random x,y, "
+        "negative, random}, scalar and array calls, and every input class (Python int, list, tuple, int32/int64/"
+        "float32/0-d arrays, mixed and 2-d lists) compared with the float64 scalar evaluation; slant depth: endpoints at depth 0..3 km with random x,y, "
         "directions over the whole sphere plus injected vertical / horizontal / tangential / up-going / zero "
         "directions, steps 5..5000 m (bounded so a chord has at most ~1e5 nodes), exact-multiple and "
         "shorter-than-one-step chords; a case is non-trivial when the chord enters the Earth (result > 0); "
@@ -29,7 +30,8 @@ LEVEL_NOTE = ("floating-point rounding is not modelled (tolerance run, rel 1e-9)
               "r=R, the run accepts either the crust density or 0 for that one node; `n_steps` uses "
               "a - b*floor(a/b) for Python's float `%`; C15_trapz_bv_error bounds |T - integral| by h times the sum "
               "of per-cell oscillations, the step from oscillation sum to total variation of the PREM profile along "
-              "a chord is a hypothesis (checked numerically by the search); C15_grows_with_dip_partial proves only "
+              "a chord is a hypothesis (checked numerically by the search), discharged for monotone integrands "
+              "(C15_trapz_monotone_error) and for chords inside the outermost PREM shell (C15_prem_variation_top_shell); C15_grows_with_dip_partial proves only "
               "that the chord length (= uniform-density column) grows strictly with dip, the layered case is left to "
               "the monotonicity sweep of the search")
 ASSUMPTIONS = ["np.piecewise / np.linspace / np.trapz(np.trapezoid) / np.linalg.norm modelled by their specification"]
@@ -194,6 +196,17 @@ def correspondence(run):
             ok = False
         reqs.append("density %s %s" % (name, fw.fl(rs)))
         checks.append(("density", name, rs, sca))
+        # the same function on integer-typed input (Python ints one by one, and an integer ndarray)
+        ri = [0] + [int(x) for x in earth.radii] + [int(x) - 1 for x in earth.radii] + \
+             [run.rng.randrange(0, int(earth.earth_radius * 1.05)) for _ in range(run.scale(20, 200))]
+        arr_i = [float(v) for v in np.asarray(earth.density(np.array(ri, dtype=np.int64)), dtype=float)]
+        sca_i = [float(earth.density(r)) for r in ri]
+        if arr_i != sca_i:
+            bad = [(r, a, s_) for r, a, s_ in zip(ri, arr_i, sca_i) if a != s_][:3]
+            run.note_broken("correspondence: density int scalar/int array disagree for %s: %s" % (name, bad))
+            ok = False
+        reqs.append("density %s %s" % (name, fw.fl([float(r) for r in ri])))
+        checks.append(("density", name, [float(r) for r in ri], arr_i))
     # ---- slant depth
     maxnodes = run.scale(4e4, 1.5e5)
     for name, earth in ms.items():
@@ -369,6 +382,84 @@ def check_density(run, name, earth, rs):
                            expected=want, what="density is not the reference shell value (or scalar != array)")
 
 
+INPUT_CLASSES = ("int", "npint64", "list_int", "tuple_int", "array_int64", "array_int32", "list_float", "tuple_float",
+                 "array_float32", "zero_d_float", "zero_d_int", "mixed_list", "nested_2d_int")
+
+
+def as_class(cls, vals):
+    """the same radii presented as another input class -> (argument, float64 values it denotes, rel tolerance)"""
+    iv = [int(v) for v in vals]
+    if cls == "int":
+        return iv[0], [float(iv[0])], 1e-12
+    if cls == "npint64":
+        return np.int64(iv[0]), [float(iv[0])], 1e-12
+    if cls == "list_int":
+        return list(iv), [float(v) for v in iv], 1e-12
+    if cls == "tuple_int":
+        return tuple(iv), [float(v) for v in iv], 1e-12
+    if cls == "array_int64":
+        return np.array(iv, dtype=np.int64), [float(v) for v in iv], 1e-12
+    if cls == "array_int32":
+        return np.array(iv, dtype=np.int32), [float(v) for v in iv], 1e-12
+    if cls == "list_float":
+        return [float(v) for v in vals], [float(v) for v in vals], 1e-12
+    if cls == "tuple_float":
+        return tuple(float(v) for v in vals), [float(v) for v in vals], 1e-12
+    if cls == "array_float32":
+        a = np.array(vals, dtype=np.float32)
+        return a, [float(v) for v in a], 2e-6          # evaluated in single precision
+    if cls == "zero_d_float":
+        return np.array(float(vals[0])), [float(vals[0])], 1e-12
+    if cls == "zero_d_int":
+        return np.array(iv[0]), [float(iv[0])], 1e-12
+    if cls == "mixed_list":
+        m = [iv[i] if i % 2 == 0 else float(vals[i]) for i in range(len(vals))]
+        return m, [float(v) for v in m], 1e-12
+    if cls == "nested_2d_int":
+        k = len(iv) // 2 * 2
+        return np.array(iv[:k], dtype=np.int64).reshape(2, k // 2), [float(v) for v in iv[:k]], 1e-12
+    raise ValueError(cls)
+
+
+def check_density_inputs(run, name, earth, vals, cls):
+    """density must be the reference value whatever the type the radius comes in: Python int, list, tuple, integer
+    / float32 / 0-d arrays ...; compared with the reference profile and with the float64 scalar evaluation"""
+    arg, f64, tol = as_class(cls, vals)
+    inp = {"model": name, "class": cls, "radii": [float(v) for v in vals]}
+    try:
+        out = earth.density(arg)
+    except Exception as e:      # noqa: BLE001
+        run.fail_input("density-input", inp, observed="%s: %s" % (type(e).__name__, e), what="density raised on %s input" % cls)
+        return
+    flat = [float(x) for x in np.asarray(out, dtype=float).ravel()]
+    if len(flat) != len(f64):
+        run.fail_input("density-input", inp, observed=flat, what="density returns %d values for %d radii" % (len(flat), len(f64)))
+        return
+    for r, got in zip(f64, flat):
+        want = ref_density(name, r)
+        sca = float(earth.density(float(r)))
+        if not (fw.close(got, want, tol, 0.0) and fw.close(got, sca, tol, 0.0)):
+            run.fail_input("density-input", inp, observed={"r": r, "value": got, "float64_scalar": sca,
+                                                          "dtype": str(getattr(out, "dtype", type(out).__name__))},
+                           expected=want, what="density of a radius given as %s differs from the reference profile / "
+                                               "from the float64 scalar evaluation" % cls)
+            return
+
+
+def check_slant_inputs(run, name, earth, ep, d, step, cls):
+    """slant_depth with integer-valued endpoint / direction / step given as ints, lists, tuples, integer arrays"""
+    epi, di, st = [int(x) for x in ep], [int(x) for x in d], int(step)
+    ref, err = slant(earth, [float(x) for x in epi], [float(x) for x in di], float(st))
+    mk = {"list_int": list, "tuple_int": tuple, "array_int64": lambda v: np.array(v, dtype=np.int64),
+          "array_int32": lambda v: np.array(v, dtype=np.int32), "array_float32": lambda v: np.array(v, dtype=np.float32)}[cls]
+    got, err2 = slant(earth, mk(epi), mk(di), st)
+    tol = 1e-5 if cls == "array_float32" else 1e-12
+    if err2 or not fw.close(got, ref, tol, 0.0):
+        run.fail_input("slant-input", {"model": name, "class": cls, "endpoint": epi, "direction": di, "step": st},
+                       observed=err2 or got, expected=ref,
+                       what="slant_depth of integer-valued arguments given as %s differs from the float64 call" % cls)
+
+
 def rotz(v, a):
     c, s = math.cos(a), math.sin(a)
     return [c * v[0] - s * v[1], s * v[0] + c * v[1], v[2]]
@@ -411,6 +502,24 @@ def search(run, deep):
     for name, earth in ms.items():
         check_density(run, name, earth, radii_cases(run, name, earth))
         run.case(("oracle-density", name))
+        bnds = [0] + [int(x) for x in earth.radii]
+        for cls in INPUT_CLASSES:
+            for rep in range(2 * mult):
+                vals = [rng.choice(bnds)] + [rng.randrange(0, int(earth.earth_radius * 1.02)) for _ in range(7)]
+                vals = [float(v) + (0.0 if "int" in cls or cls == "mixed_list" else rng.random()) for v in vals]
+                run.case(("oracle-density-input", name, cls, tuple(vals)))
+                run.count("density_input_" + cls)
+                check_density_inputs(run, name, earth, vals, cls)
+        # (float32 endpoints are not compared: earth_radius + z is then formed in single precision, 0.5 m resolution)
+        for cls in ("list_int", "tuple_int", "array_int64", "array_int32"):
+            for rep in range(mult):
+                ep = [rng.randrange(-20000, 20000), rng.randrange(-20000, 20000), -rng.randrange(0, 3000)]
+                d = [rng.randrange(-5, 6), rng.randrange(-5, 6), rng.randrange(-5, 1)]
+                if not any(d):
+                    d = [0, 0, -1]
+                run.case(("oracle-slant-input", name, cls, tuple(ep), tuple(d)))
+                run.count("slant_input_" + cls)
+                check_slant_inputs(run, name, earth, ep, d, rng.choice([100, 500, 1000]), cls)
         for ep, d, step, kind in slant_cases(run, 40 * mult):
             if kind == "zero":
                 continue
@@ -443,6 +552,10 @@ def replay(run, data):
     k = data.get("kind")
     if k == "density":
         check_density(run, name, earth, [i["r"]])
+    elif k == "density-input":
+        check_density_inputs(run, name, earth, i["radii"], i["class"])
+    elif k == "slant-input":
+        check_slant_inputs(run, name, earth, i["endpoint"], i["direction"], i["step"], i["class"])
     elif k in ("column", "zero-case"):
         check_column(run, name, earth, i["endpoint"], i["direction"], i["step"])
     elif k == "azimuth":
